@@ -87,7 +87,9 @@ Inductive sop :=
 | SSearch (k start maxr : N) (fs : list cfilt)
 | SPages (k start maxr : N) (fs : list cfilt)       (* follow next_search_idx until it is null *)
 | SLookIdx (k idx : N)
-| SLookTime (k t : N).
+| SLookTime (k t : N)
+| SLookIdxAll (k n : N)              (* index= for every index 0..n *)
+| SLookTimeAll (k t0 step cnt : N). (* time lookups at t0 + j*step (us), j < cnt *)
 
 (* [fast_run] = [run] on every reachable state (Remote/StreamFastProofs.v, pinned as C16_fast_run_is_run); it makes
    sessions with windows of some 100 000 messages evaluable *)
@@ -205,7 +207,15 @@ Fixpoint pages_obs (fuel : nat) (sorted : bool) (st : sess) (id start maxr : N) 
 
 (* searches, lookups and stops are asked in settled states only (a raced query may or may not have ended yet) *)
 Definition needs_settled (o : sop) : bool :=
-  match o with SSearch _ _ _ _ | SPages _ _ _ _ | SLookIdx _ _ | SLookTime _ _ | SStop _ => true | _ => false end.
+  match o with SSearch _ _ _ _ | SPages _ _ _ _ | SLookIdx _ _ | SLookTime _ _ | SStop _ | SLookIdxAll _ _
+               | SLookTimeAll _ _ _ _ => true | _ => false end.
+
+Definition look_obs (sorted : bool) (st : sess) (o : op cmsg) : otree :=
+  match c_step sorted (ss_sv st) o with
+  | Ok (_, [EReplyLookup _ (Some p)]) => T [L 0; L p]
+  | Ok (_, _) => T [L 1]
+  | _ => o_panic
+  end.
 
 Definition sess_step (sorted : bool) (file : list cmsg) (st0 : sess) (o : sop) : sess * otree :=
   let st := if needs_settled o && negb (ss_loaded st0)
@@ -256,6 +266,10 @@ Definition sess_step (sorted : bool) (file : list cmsg) (st0 : sess) (o : sop) :
       | Some (st1, _) => (st1, T [L 1])
       | None => (st, o_panic)
       end
+  | SLookIdxAll k n =>
+      (st, T (map (fun i => look_obs sorted st (OLookupIdx (nth_id (ss_ids st) k) i)) (positions 0 (N.to_nat (n + 1)))))
+  | SLookTimeAll k t0 step cnt =>
+      (st, T (map (fun j => look_obs sorted st (OLookupTime (nth_id (ss_ids st) k) (t0 + j * step))) (positions 0 (N.to_nat cnt))))
   | SLookTime k t =>
       match apply sorted st [OLookupTime (nth_id (ss_ids st) k) t] with
       | Some (st1, [EReplyLookup _ (Some p)]) => (st1, T [L 0; L p])
